@@ -385,8 +385,9 @@ async def tee_peer(
                         # item already.
                         for peer_buffer in peers:
                             peer_buffer.append(item)
-                        # do not keep a sibling's buffer alive if it closes meanwhile
-                        del peer_buffer
+                        # do not keep a sibling's buffer alive if it closes meanwhile,
+                        # nor the item beyond the buffers it is in
+                        del peer_buffer, item
             yield buffer.popleft()
     finally:
         await tee_peer_done(iterator, buffer, peers)
